@@ -117,7 +117,7 @@ class StmtMixin:
         if isinstance(v, VCList) and not v.items and kind is not None:
             if not (isinstance(kind, tuple) and kind[0] == 'list'): raise StaleContract('declared kind %r is not a list' % (kind,))
             e = empty_list(kind[1])
-            if kind[1] == 'int' and self.listsets and p is not None:
+            if kind[1] in listsets.KINDS and self.listsets and p is not None:
                 for f in listsets.on_empty(e.term()): p.assume(f)
             return e
         if isinstance(v, tuple) and v[0] == 'emptylists':
@@ -125,7 +125,7 @@ class StmtMixin:
             inner = kind[1]
             if not (isinstance(inner, tuple) and inner[0] == 'list'): raise StaleContract('declared kind %r is not a list of lists' % (kind,))
             e = empty_list(inner[1])
-            if inner[1] == 'int' and self.listsets and p is not None:
+            if inner[1] in listsets.KINDS and self.listsets and p is not None:
                 for f in listsets.on_empty(e.term()): p.assume(f)
             return VList(v[1], z3.K(I, e.term()), inner)
         return v
@@ -205,7 +205,7 @@ class StmtMixin:
         if isinstance(c, VList):
             e = self.to_elem(c.kind, v, p, line)
             new = VList(c.len + 1, z3.Store(c.arr, c.len, e), c.kind)
-            if c.kind == 'int' and self.listsets:
+            if c.kind in listsets.KINDS and self.listsets:
                 for f in listsets.on_append(c.term(), new.term(), e): p.assume(f)
             return new
         if isinstance(c, VCList): return VCList(c.items + [v])
@@ -311,7 +311,7 @@ class StmtMixin:
         if isinstance(v, VList):
             al = it if isinstance(it, (ast.Name, ast.Attribute, ast.Subscript)) else None
             n = z3.simplify(v.len)
-            self.iter_list = v if (v.kind == 'int' and self.listsets) else None
+            self.iter_list = v if (v.kind in listsets.KINDS and self.listsets) else None
             return v.len, (lambda k: self.wrapk(v.kind, z3.Select(v.arr, k))), al, (n.as_long() if z3.is_int_value(n) else None)
         if isinstance(v, (VCList, VTuple)):
             items = v.items
